@@ -1,12 +1,13 @@
 package engine
 
 import (
-	"time"
 	"bytes"
 	"fmt"
 	"os"
 	"path/filepath"
 	"strings"
+	"time"
+	"verifsim/simdisk"
 
 	"github.com/akalin/gopar/par1"
 	"github.com/akalin/gopar/par2"
@@ -63,18 +64,25 @@ func determinismMem(r *Run) {
 	base := w.Disk.Clone()
 	var canon map[string][]byte
 	canonFailed, mayFail := false, false
+	var plan []simdisk.Fault
 	create := func(label string, paths []string, index string, g int, spec SchedSpec) {
 		w2 := *w
 		w2.Disk = base.Clone()
 		w2.G = g
 		var c *OpResult
 		if par1Set {
-			c = r.Create1(&w2, index, paths, nil)
+			c = r.Create1(&w2, index, paths, plan)
 		} else {
 			w2.Index = index
-			c = r.Create2(&w2, paths, nil, spec)
+			c = r.Create2(&w2, paths, plan, spec)
 		}
 		r.noPanic(c)
+		if plan != nil && (c.Err != nil || canon == nil) {
+			// a Create that met an I/O fault may fail (C18 decides whether it
+			// must); only one that reports success is held to the same bytes
+			r.Count("outcome:faulty-create-failed")
+			return
+		}
 		for _, v := range c.SchedV {
 			r.Violate(v.Kind, "Create (%s): %s", label, v.Detail)
 		}
@@ -300,6 +308,18 @@ func determinismMem(r *Run) {
 		variations = append(variations, label...)
 		create(strings.Join(label, "+"), p2, index, g, spec)
 		t.End()
+	}
+	if !canonFailed && t.Bool(1, 5, "read-fault-variant") {
+		// one read of one input fails once (with one of the error values of
+		// the simulated disk, among them errnos that call themselves
+		// temporary): a Create that nevertheless reports success must have
+		// written the bytes of the fault-free run
+		k := t.Draw(len(paths), "faulty-input")
+		plan = []simdisk.Fault{{Path: base.Resolve(paths[k]), Op: 'R', Occ: 1, Kind: simdisk.ReadEIO, ErrStyle: t.Draw(5, "error-style")}}
+		create("read-fault", paths, w.Index, 1, SchedSpec{})
+		plan = nil
+		variations = append(variations, "read-fault")
+		r.Probe("read-fault-variant")
 	}
 	if par1Set {
 		r.Probe("par1")
